@@ -31,6 +31,8 @@ def run(tier):
                                                                positions=('second',)), 'monitors': mon},
             {'label': 'exotic-ids', 'harness': HItem(pool=gen.EXOTIC_IDS[:4], cap=3, max_list=2, patterns=('plain',), positions=('second',)),
              'monitors': mon},
+            {'label': 'pool4-cap3-L3', 'harness': HItem(pool=4, cap=3, max_list=3, patterns=('plain',), positions=('second',), packings=('one',)),
+             'monitors': mon},
         ]
     else:
         parts = [
